@@ -1,5 +1,6 @@
 """C04 — generic-interaction sampler: loop update, exit-leg heat bath, gate, offsets, pipeline."""
 from checks import kern
+from checks import pure_fns
 from checks import full_step
 LEAN_TARGETS = ["drv_step", "QmcProofs.SamplerStep", "QmcProofs.SamplerCluster", "QmcProps.C04", "drv_c04", "QmcProps.C08", "drv_c08", "QmcProps.C02", "drv_c02"]
 BINS = ["fullstep", "c04", "c04m", "c08", "c02", "kern"]
@@ -102,6 +103,7 @@ RULE = ("generic samplers over four interaction families (two-site exchange-type
 
 
 def main(ck):
+    pure_fns.run(ck)   # source->Lean translation of pure functions, re-proved equal to the hand model (scoped to this property's groups)
     if ck.lake_build(LEAN_TARGETS):
         ck.audit("QmcProps.C04", ["Qmc.C04." + t for t in THEOREMS])
         ck.prop_audit_extra = True
